@@ -157,7 +157,7 @@ def run(tier):
         scen.append(mk_skipto(rng, [1, 1, 2][i % 3]))
     for i in range(6 if quick else 60):
         scen.append(mk_idle(rng))
-    seqfam.run_scenarios(res, scen, "TraceCep", tag="cep", relayout_p=0.3, retype_p=0.3)
+    seqfam.run_scenarios(res, scen, "TraceCep", tag="cep", relayout_p=0.3, retype_p=0.3, rename_p=0.3)
     seqfam.run_pinned(res, "TraceCep")
     res.cov["exhaustive"] = False
     res.cov["distinct_nontrivial"] = len({s["sql"] + json.dumps(s["rows"], sort_keys=True) for s in scen})
